@@ -8,13 +8,29 @@ RULE = ("C01's generator biased to banner/macro bodies (indented, blank and deep
         "themselves indented, nested starts, unterminated banners/macros), the vendor fixtures, x syntax x ignore_blank_lines x "
         "comment delimiters; every line's stored parent, stored child list and the seven derived views are dumped. "
         "non-trivial = the parse has a line with a parent; distinct by request.")
-LEVEL_TEXT = ("Theorems (Lean 4, all configs incl. banners/macros, terminated or not): in the model of bootstrap+commit every line has one "
-              "parent index that is <= its own (a root iff equal), child lists are derived from the parent function, hence each line is in "
-              "exactly one child list, ascending; the derived views are specified against the parent function "
-              "(all-children = descendants in line order, all-parents = ancestor chain, endpoint = last descendant, siblings, flags). "
-              "The correspondence checks that the implementation's STORED child lists and its views equal the model's derived ones.")
-LEVEL_NOTE = ("Trusted: Lean kernel, standard axioms, the harness. The model derives child lists from parents; that the code's stored lists "
-              "agree is measured by the correspondence on every run, not proved.")
+LEVEL_TEXT = ("Theorems (Lean 4, no size bounds; Ccp.Props.C03 over the model Ccp.Model.Tree of ConfigList.bootstrap for the indentation "
+              "syntaxes and of the BaseCfgLine family views). parse_forest / bootstrap_forest / link_forest: for every text list and every "
+              "option set (ios macros on/off, any comment delimiters, ignore_blank_lines on/off), banners and macros terminated or not, after "
+              "all four passes of both bootstraps (fresh parse + the re-bootstrap of commit()) there is exactly one parent index per line and "
+              "it is <= the line's own index (root iff equal, otherwise the parent comes strictly before). For every tree: children_spec, "
+              "children_ascending, children_count, child_in_exactly_one_list, root_in_no_list, children_after: the (derived) child list of i "
+              "holds exactly the non-root lines whose parent is i, strictly ascending, a non-root line occurs exactly once in its parent's "
+              "list and in no other, a root in none, children come after their parent. For every tree satisfying Forest, with "
+              "ancestors t j = the chain parent, grandparent, ... root (shown equal to the transitive closure IsAncestor, strictly "
+              "descending, ending at a root): allParents_spec (= the chain reversed; ascending, duplicate free), allChildren_spec "
+              "(j listed iff i is on j's chain; ascending, duplicate free; equals the line range filtered by that condition), allChildren_closure "
+              "(j listed iff it is a child of i or listed for a child of i), allParents_allChildren_dual (converse relations), geneology_spec "
+              "(= root-to-line path), lineage_spec (= all_parents ++ [i] ++ all_children, ascending), familyEndpoint_spec (= the maximum of "
+              "i :: all_children), siblings_spec (the parent's children of equal indent, ascending; for a root its own children of equal "
+              "indent), self_mem_siblings, flags_spec (is_parent iff child list non-empty iff some other line names i as parent; is_child "
+              "iff not a root). The loop bounds (fuel = number of lines) of the model's all_children / all_parents are proved sufficient. "
+              "All theorems are at full strength; none is partial. The correspondence checks on every run that the implementation's STORED "
+              "parent links, STORED child lists and its seven views equal the model's derived ones.")
+LEVEL_NOTE = ("Trusted: Lean kernel, standard axioms (propext, Classical.choice, Quot.sound), the harness. The model derives child lists from "
+              "the parent indices; that the code's stored child lists (and views) agree with the derived ones is measured by the correspondence "
+              "on every run, not proved. Not proved here: the forest invariant after arbitrary committed edit sequences (commit_forest; the "
+              "re-bootstrap that commit() performs is covered, the edit operations are C07's state machine) and for brace-syntax (junos) "
+              "trees (C08's model).")
 ASSUMPTIONS = ["no lone surrogates", "brace syntax trees are covered by C08's check, edit histories by C07's"]
 TRUSTED = ["hand-written scanners for the banner regexes"]
 EXHAUSTIVE = {"quick": False, "thorough": False}
